@@ -355,11 +355,31 @@ def part_a(ctx):
     ctx.notes["exhaustive_part"] = "worlds whose DFS completed: " + ", ".join(k for k, v in summary.items() if v["complete"])
 
 
+def done_hist(rcpts, plan, ctl=None):
+    return {"controls": dict({"me": "me.example\n", "locals": "loc.example\n"}, **(ctl or {})), "limits": [120, 120],
+            "messages": [{"sender": "s@rem.example", "rcpts": r, "body": "x\n"} for r in rcpts], "scripts": {}, "bscript": "", "texts": ["ok"], "tape": [],
+            "plan": plan, "actions": ["answer", "answer2", "inject", "advance", "term"], "mode": {"kind": "none"}}
+
+
+FIXED_DONE = [
+    done_hist([["a@rem.example"], ["joe@loc.example"], ["ann@loc.example"]], ["inject", "inject", "inject", "answer2", "answer"]),
+    done_hist([["joe@loc.example"], ["r@rem.example"], ["q@rem.example"], ["ann@loc.example"]], ["inject", "inject", "inject", "answer2", "inject", "answer2"]),
+    done_hist([["joe@loc.example", "r@rem.example"], ["ann@loc.example", "q@rem.example"]], ["inject", "inject", "answer2", "answer2"]),
+    # a deferred message is read back at start-up (where a failing stat() parks it for SLEEP_SYSFAIL) and two others finish in one iteration
+    dict(done_hist([["joe@loc.example"], ["ann@loc.example"], ["bob@loc.example"]], ["inject", "answer", "term", "inject", "inject", "answer2"]), scripts={"0:0": "ZK"}),
+    dict(done_hist([["r@rem.example"], ["ann@loc.example"], ["q@rem.example"], ["bob@loc.example"]],
+                   ["inject", "answer", "term", "inject", "inject", "answer2", "inject", "answer"]), scripts={"0:0": "ZZK"}),
+]
+
+
 def run(ctx):
     if ctx.only is None or "a" in ctx.only:
         part_a(ctx)
     if ctx.only is None or "b" in ctx.only:
         q.search(ctx, "C15", TAGS, 40, 600, fixed=FIXED_B)
+        # finished messages are removed before the daemon blocks, also when two finish in the same loop iteration and also while another
+        # message is parked after a failing stat(): each history re-executed under every single failing stat() of the daemon
+        q.search(ctx, "C15", TAGS, 0, 0, fixed=FIXED_DONE, sweep={"all": True, "faults_only": True, "fault_classes": ["stat"], "tags": ["C16-done"], "restarts": True})
         q.search(ctx, "C03", TAGS, 30, 400)
         q.search(ctx, "C04", TAGS, 20, 300)        # varied concurrency settings: saturated channels with open passes
 
@@ -376,4 +396,6 @@ def replay(ctx, path):
             out = gw.execute(sc["world"], sc["tape"])
             bad.append(out["verdict"])
         return [bad[0]] if all(bad) else []
-    return q.replay_scenario(ctx, path, TAGS)
+    # a history that failed under an injected stat() failure was judged by the clause that stays sound there
+    md = sc.get("mode", {}) if isinstance(sc, dict) else {}
+    return q.replay_scenario(ctx, path, TAGS + (("C16-done",) if md.get("kind") == "fault" and md.get("cls") == "stat" else ()))
